@@ -429,7 +429,8 @@ def fam_merge(rule: str, tier: str, det):
         mods += [("meth", x, "append", [("star", V2)]), ("meth", x, "append", []), ("meth", x, "append", [C(1), C(2)])]
         many = [[seq("KList", C(3), C(4))], [V2], [seq("KTuple", C(5), ("star", V3))], [("call", 1, [])], [V1],
                 [seq("KList", C(3)), V2], [], [seq("KSet", C(1), C(2))], [seq("KList", F0, F4)], [("star", V2)],
-                [seq("KList", LEN1)], [dct(kv(C(1), C(2)))], [C("aa")], [seq("KList", seq("KList", C(1)))]]
+                [seq("KList", LEN1)], [dct(kv(C(1), C(2)))], [C("aa")], [seq("KList", seq("KList", C(1)))],
+                [seq("KSet", C(1), C(True))]]
         mods += [("meth", x, m, a) for m in ("extend", "update") for a in many]
         mods += [("meth", 2, "append", [C(1)]), ("setitem", x, C(0), C(9))]
         small = [("meth", x, "append", [C(2)]), ("meth", x, "add", [C(True)]), ("meth", x, "extend", [seq("KList", C(3), F0)]),
@@ -531,6 +532,7 @@ def fam_filter(tier, rnd):
             out.append([("for", ("tname", 1), ("plain", it), [("if", t, [bodies[0]], []), bodies[1]])])
             out.append([("for", ("tname", 1), ("plain", it), [("if", ("not", t), [("cont",)], []), bodies[0], bodies[1]])])
             out.append([("for", ("tname", 1), ("plain", it), [("if", ("not", t), [("break",)], []), bodies[0]])])
+            out.append([("for", ("tname", 1), ("plain", it), [("if", t, [("cont",)], []), bodies[0]])])
             out.append([("for", ("ttup", [1, 3]), ("plain", it), [("if", t, [bodies[0]], [])])])
         out.append([("for", ("tname", 1), ("filter", None, it), [("if", V1, [bodies[0]], [])])])
         out.append([("for", ("tname", 1), ("filter", 4, it), [("if", ("call", 0, [V1]), [bodies[0]], [])])])
@@ -722,12 +724,25 @@ def run_program(src: str) -> str:
     return out.getvalue()
 
 
+WITNESS_AFTER = {   # what the witness of a listed finding prints after the rewrite (anything else is a new defect)
+    "F02coll-2": "2\n4\n",
+    "F02coll-3": "KeyError(1) ValueError(\"invalid literal for int() with base 10: 'x'\") "
+                 "ValueError(\"invalid literal for int() with base 10: 'x'\") True\n",
+    "F02-58": "defaultdict(<class 'list'>, {1: [2, 3]})\n",
+    "F02x-18": "1\n",
+}
+
+
 def check_witnesses(run, mods, kf, failures, reproduced):
     n = 0
     for fid, site, src, expect_same in WITNESSES:
         new = apply_rule(mods, site.split(".")[1], src)
         before, after = run_program(src), run_program(new)
         n += 1
+        if fid in WITNESS_AFTER and after != before and after != WITNESS_AFTER[fid]:
+            failures.append((site, {"source": src, "output": new, "witness": True,
+                                    "problem": f"stdout {before!r} before, {after!r} after (the listed finding {fid} explains {WITNESS_AFTER[fid]!r})"}))
+            continue
         if before == after:
             if fid and not fid.startswith("F02x") and not fid.startswith("F02-"):
                 common.log(f"note: known finding {fid} no longer reproduces on its witness")
@@ -930,7 +945,7 @@ def check(run, mods, wd, rnd) -> dict:
     # ---- semantics validation: CPython vs exec_block on inputs and outputs
     sem, seen = [], set()
     per = 2 if quick else 5
-    cap = 5000 if quick else 60000
+    cap = 4000 if quick else 60000
     sem_blocks = []
     for c in block_cases:
         if c[1] == "simplify_assign_immediate_return":
@@ -1090,7 +1105,7 @@ def check(run, mods, wd, rnd) -> dict:
                  "seeded random blocks; non-trivial = the real rule changed the text; distinct by (rule, source). "
                  f"Semantics: CPython vs exec_block on every input and output block under {per} valuations."),
         "samples": samples,
-        "modelled_rules": MODELLED,
+        "modelled_rules": MODELLED, "rules_modelled": MODELLED,
         "histogram": dict(hist), "block_cases": len(block_cases), "semantic_cases": len(sem) + len(lam_sem),
         "semantic_gaps": sem_gap, "semantic_mismatches": len(sem_bad), "kernel_cases": len(pure_cases) + len(ment_cases),
         "correspondence_disagreements": len(disagreements), "rule_problems": len(problems),
